@@ -678,6 +678,8 @@ func checkC06(w *World, r *Report) {
 			var o, cl string
 			if bo, bc, ok := builderBrackets(rt[1].(ssa.Value)); ok {
 				o, cl = bo, bc
+			} else if bo, bc, ok := encloserBrackets(rt[1].(ssa.Value)); ok {
+				o, cl = bo, bc
 			} else {
 				if len(parts) != 3 {
 					continue
@@ -846,8 +848,8 @@ func checkC16(w *World, r *Report) {
 			ret := rt[0].(*ssa.Return)
 			v, _ := rt[1].(ssa.Value)
 			ev, _ := rt[2].(ssa.Value)
-			_ = ev
-			if v == nil || isNilConst(v) {
+			// a success: a value, or nil handed back with no error (a form skipped and read as nil is an answer too)
+			if v == nil || (isNilConst(v) && !(ev != nil && isNilConst(ev))) {
 				continue
 			}
 			nm++
@@ -864,6 +866,7 @@ func checkC16(w *World, r *Report) {
 	// template: errors.New(a + end + b) in read_list where end is parameter 2
 	var tmplParts []ssa.Value
 	var tmplCall *ssa.Call
+	var tmplMaker *ssa.Function // the function of the package that holds the template, when it is not written at the site
 	// the closer: read_list's parameter, or the parameter of a helper of read_list that is handed it
 	closerVals := map[ssa.Value]bool{readList.Params[2]: true}
 	for changed := true; changed; {
@@ -890,6 +893,14 @@ func checkC16(w *World, r *Report) {
 			for _, in := range b.Instrs {
 				c, ok := in.(*ssa.Call)
 				if !ok || c.Call.StaticCallee() == nil {
+					continue
+				}
+				// ... or that makes it from a template of its own with the closer it is handed in one slot
+				if mparts, pi, ok := errTemplateMaker(c.Call.StaticCallee()); ok && pi < len(c.Call.Args) && closerVals[c.Call.Args[pi]] {
+					if tmplCall == nil || strings.Contains(strings.Join(constParts(mparts), ""), "EOF") {
+						closerVals[c.Call.StaticCallee().Params[pi]] = true
+						tmplParts, tmplCall, tmplMaker = mparts, c, c.Call.StaticCallee()
+					}
 					continue
 				}
 				// errors.New, or a function of the module that makes an error of the text it is handed
@@ -936,6 +947,14 @@ func checkC16(w *World, r *Report) {
 	for _, b := range readAtom.Blocks {
 		for _, in := range b.Instrs {
 			if c, ok := in.(*ssa.Call); ok && c.Call.StaticCallee() != nil {
+				if tmplMaker != nil && c.Call.StaticCallee() == tmplMaker {
+					if _, pi, ok := errTemplateMaker(tmplMaker); ok && pi < len(c.Call.Args) {
+						if cl, isConst := constString(c.Call.Args[pi]); isConst {
+							readerMsgs[inst(cl)] = true
+						}
+					}
+					continue
+				}
 				a, isMsg := msgArg(c)
 				if !isMsg || c.Call.StaticCallee().Name() == "Errorf" || c.Call.StaticCallee().Name() == "Sprintf" {
 					continue
@@ -1006,12 +1025,16 @@ func checkC16(w *World, r *Report) {
 					continue
 				}
 				nEof++
-				okSite := c == tmplCall || fn == readAtom
+				okSite := c == tmplCall || fn == readAtom || (tmplMaker != nil && fn == tmplMaker)
 				r.check(okSite, "C16.eof-sites", fn, "construction of an 'incomplete input' message", c.Pos(), "read_list's template or read_atom's raw-string case", "an 'expected …, got EOF' message is built outside the place where the token stream ends inside an open bracket: texts are declared incomplete (or given the wrong closer) by a different criterion than the parser's")
 			}
 		}
 	}
-	r.floor("C16.eof-sites", "constructions of 'incomplete input' messages", nEof, 2)
+	minEof := 2
+	if tmplMaker != nil {
+		minEof = 1 // one function of the package holds the one template
+	}
+	r.floor("C16.eof-sites", "constructions of 'incomplete input' messages", nEof, minEof)
 	replMsgs := map[string]bool{}
 	for _, b := range multi.Blocks {
 		if iff := blockIf(b); iff != nil {
@@ -2051,6 +2074,10 @@ func replAccumulateRule(w *World, r *Report, multi *ssa.Function, rule string) {
 				}
 				n++
 				if v == ssa.Value(phi) {
+					// a round that neither keeps the line nor gives the input up: only where no line was read (the
+					// line reader answered with an error: interrupt). A typed line that is taken for a command of the
+					// REPL on a continuation line never reaches the reader: the expression is silently cut
+					r.check(onReadError(pred, l.header), rule, ex, "round that leaves the accumulated input as it was", instrPos(pred.Instrs[len(pred.Instrs)-1]), "only when the line reader reported an error", "the loop goes round without appending the line it read and without handing the input to the reader: a line typed while an expression is open is dropped from it (the expression is read without that line)")
 					return
 				}
 				isReset := isNilConst(v)
@@ -2122,6 +2149,19 @@ func replAccumulateRule(w *World, r *Report, multi *ssa.Function, rule string) {
 					}
 				}
 				r.check(kept, rule, ex, "input carried into the next round", pos, "only after the classifier said the text is incomplete", "the lines typed so far are kept on a path where the text was not classified as incomplete (an input rejected with another error): every following line is appended to the rejected text, so no complete expression is read on its own again")
+			}
+			// leaving the loop drops whatever is pending: only when the line reader says the input has ended
+			for b := range blocks {
+				for _, sx := range b.Succs {
+					if blocks[sx] || len(sx.Instrs) == 0 {
+						continue
+					}
+					if _, isRet := sx.Instrs[len(sx.Instrs)-1].(*ssa.Return); !isRet {
+						continue
+					}
+					n++
+					r.check(onReadError(sx) || onReadError(b, sx), rule, ex, "way out of the REPL loop", instrPos(sx.Instrs[len(sx.Instrs)-1]), "only when the line reader reported the end of the input (or an error)", "the REPL can leave its loop on the strength of what a typed line says: with an expression open, that line and the pending input are dropped instead of being read")
+				}
 			}
 			for i, v := range phi.Edges {
 				if pred := l.header.Preds[i]; blocks[pred] {
@@ -2539,3 +2579,149 @@ func trueOnlyWithPrefix(h *ssa.Function, marker string) bool {
 	return n > 0
 }
 
+// encloserBrackets: v is the result of a function of the package that puts joined texts between two string
+// fields of a struct it is handed (`brackets{open: "{", close: "}"}.enclose(printed)`): the constants the caller
+// stored into those two fields of the literal.
+func encloserBrackets(v ssa.Value) (string, string, bool) {
+	c, ok := v.(*ssa.Call)
+	if !ok || c.Call.StaticCallee() == nil || len(c.Call.StaticCallee().Blocks) != 1 {
+		return "", "", false
+	}
+	h := c.Call.StaticCallee()
+	ret, ok := h.Blocks[0].Instrs[len(h.Blocks[0].Instrs)-1].(*ssa.Return)
+	if !ok || len(ret.Results) != 1 {
+		return "", "", false
+	}
+	parts := concatParts(ret.Results[0])
+	if len(parts) != 3 {
+		return "", "", false
+	}
+	if jc, ok := parts[1].(*ssa.Call); !ok || !isStringsFn(jc, "Join") {
+		return "", "", false
+	}
+	// a field of a struct parameter (read directly, or through the local a value receiver is spilled into)
+	fieldOfParam := func(v ssa.Value) (ssa.Value, int, bool) {
+		switch x := v.(type) {
+		case *ssa.Field:
+			return x.X, x.Field, true
+		case *ssa.UnOp:
+			if fa, ok := x.X.(*ssa.FieldAddr); ok && x.Op == token.MUL {
+				if al, ok := fa.X.(*ssa.Alloc); ok {
+					for _, ref := range *al.Referrers() {
+						if st, ok := ref.(*ssa.Store); ok && st.Addr == ssa.Value(al) {
+							if p, isP := st.Val.(*ssa.Parameter); isP {
+								return p, fa.Field, true
+							}
+						}
+					}
+				}
+			}
+		}
+		return nil, 0, false
+	}
+	x0, fi0, ok0 := fieldOfParam(parts[0])
+	x2, fi2, ok2 := fieldOfParam(parts[2])
+	if !ok0 || !ok2 || x0 != x2 {
+		return "", "", false
+	}
+	f0 := struct{ Field int }{fi0}
+	f2 := struct{ Field int }{fi2}
+	pi := -1
+	for i, p := range h.Params {
+		if ssa.Value(p) == x0 {
+			pi = i
+		}
+	}
+	if pi < 0 || pi >= len(c.Call.Args) {
+		return "", "", false
+	}
+	ld, ok := c.Call.Args[pi].(*ssa.UnOp)
+	if !ok {
+		return "", "", false
+	}
+	lit, ok := ld.X.(*ssa.Alloc)
+	if !ok {
+		return "", "", false
+	}
+	field := func(i int) (string, bool) {
+		val, n := "", 0
+		for _, ref := range *lit.Referrers() {
+			fa, ok := ref.(*ssa.FieldAddr)
+			if !ok || fa.Field != i {
+				continue
+			}
+			for _, u := range *fa.Referrers() {
+				if st, ok := u.(*ssa.Store); ok && st.Addr == ssa.Value(fa) {
+					s, isS := constString(st.Val)
+					if !isS {
+						return "", false
+					}
+					val = s
+					n++
+				}
+			}
+		}
+		return val, n == 1
+	}
+	o, okO := field(f0.Field)
+	cl, okC := field(f2.Field)
+	return o, cl, okO && okC
+}
+
+// onReadError: block b is reached only through the true outcome of a comparison of an error value (the line
+// reader's err == ErrInterrupt, err == io.EOF, err != nil).
+func onReadError(b *ssa.BasicBlock, to ...*ssa.BasicBlock) bool {
+	atoms := knownConds(b)
+	// the edge b -> to taken straight from b's own test
+	if iff := blockIf(b); iff != nil && len(to) == 1 {
+		if b.Succs[0] == to[0] && b.Succs[1] != to[0] {
+			atoms = append(atoms, valueConds(iff.Cond, true)...)
+		} else if b.Succs[1] == to[0] && b.Succs[0] != to[0] {
+			atoms = append(atoms, valueConds(iff.Cond, false)...)
+		}
+	}
+	for _, a := range atoms {
+		bo, ok := a.v.(*ssa.BinOp)
+		if !ok || (bo.Op != token.EQL && bo.Op != token.NEQ) {
+			continue
+		}
+		if !isErrorType(bo.X.Type()) && !isErrorType(bo.Y.Type()) {
+			continue
+		}
+		// err == X taken, or err != nil taken
+		if (bo.Op == token.EQL && a.pol && !isNilConst(bo.Y) && !isNilConst(bo.X)) || (bo.Op == token.NEQ && a.pol && (isNilConst(bo.Y) || isNilConst(bo.X))) || (bo.Op == token.EQL && !a.pol && (isNilConst(bo.Y) || isNilConst(bo.X))) {
+			return true
+		}
+	}
+	return false
+}
+
+// errTemplateMaker: fn is a one-block function of the module with one result, an error, made by errors.New from a
+// concatenation in which exactly one part is a parameter of fn: the parts, and that parameter's index.
+func errTemplateMaker(fn *ssa.Function) ([]ssa.Value, int, bool) {
+	if fn == nil || len(fn.Blocks) != 1 || !inModule(fn) || fn.Signature.Results().Len() != 1 || !isErrorType(fn.Signature.Results().At(0).Type()) {
+		return nil, 0, false
+	}
+	for _, in := range fn.Blocks[0].Instrs {
+		c, ok := in.(*ssa.Call)
+		if !ok || c.Call.StaticCallee() == nil || c.Call.StaticCallee().Name() != "New" || fnPkgPath(c.Call.StaticCallee()) != "errors" {
+			continue
+		}
+		parts := concatParts(c.Call.Args[0])
+		pi, np := -1, 0
+		for _, p := range parts {
+			if q, ok := p.(*ssa.Parameter); ok {
+				np++
+				for i, fp := range fn.Params {
+					if fp == q {
+						pi = i
+					}
+				}
+			}
+		}
+		if np == 1 && pi >= 0 && len(parts) > 1 {
+			return parts, pi, true
+		}
+	}
+	return nil, 0, false
+}
